@@ -1,6 +1,8 @@
 \* C16 gate machine, thorough tier. Constants: Big = TRUE: every hiding operation with one root
-\* selection and every mergeable pair of root selections; extension installed or not.
-\* Measured: 19680 operations, 155040 states generated, 136160 distinct, depth 6, ~80-100 s.
+\* selection and every mergeable pair of root selections x {nothing registered, extension alone};
+\* every registration order of at most 4 writers of DisableIntrospection (1367 orders) x 21 shapes,
+\* and every order of at most 2 x every single-selection shape.
+\* Measured: 51789 operations, 606626 distinct states, depth 15, ~200 s (load 60 on 16 shared cores).
 CONSTANTS
     Big = TRUE
     Schemas <- MCSchemas
